@@ -2,7 +2,7 @@
 //
 //   D  <id> <k> <dim>*k (none | <order>*k) <arg>*k
 //        kernel with `int *x @dim(dims…) [@dimOrder(order…)]` and the access x(args…); prints, for each of the
-//        seven translators, the rewritten statement `const long idx = &x[…] - x;`.  With H_LOOPS_DUMP=1 the
+//        seven translators, the rewritten statement `const long int idx = &x[…] - x;`.  With H_LOOPS_DUMP=1 the
 //        complete translated sources are appended (` @@SRC …`, hex) for the execution oracle.
 //   DO <order arguments…>      is `@dim(2,…,2) @dimOrder(arguments…)` accepted (dimOrder::isValid)?  -> accept | reject
 //        arguments are C integer literals / constant expressions as text, e.g. 0 1 2, 1 1, -1 0, 0+1 0
@@ -26,9 +26,14 @@ int main() {
           "  for (int o = 0; o < 2; ++o; @outer) {\n    for (int i = 0; i < 2; ++i; @inner) {\n      rec(o, i);\n    }\n  }\n}\n";
         // the attribute is validated while parsing, the same way by every parser: serial is enough,
         // cuda is run as well so that a backend difference would show
+        // NB: a rejected attribute prints "[@dimOrder] ..." but does NOT clear parser.success: the annotated
+        // argument is silently dropped from the kernel signature instead (reported to the owners of C16/C22).
+        // Acceptance is therefore observed as "the parser succeeded and `x` is still a parameter".
         lc::Translation a = lc::translate("serial", okl), b = lc::translate("cuda", okl);
-        if (a.ok != b.ok) hp::oracle("serial and cuda parsers disagree about @dimOrder(" + ord + ")");
-        return a.ok ? "accept" : "reject";
+        const bool accA = a.ok && a.device.find("int * x") != std::string::npos;
+        const bool accB = b.ok && b.device.find("int * x") != std::string::npos;
+        if (accA != accB) hp::oracle("serial and cuda parsers disagree about @dimOrder(" + ord + ")");
+        return accA ? "accept" : "reject";
       }
       if (t.size() < 4 || t[0] != "D") return "bad-op";
       const std::string id = t[1];
@@ -71,7 +76,7 @@ int main() {
         std::string line = "-";
         for (const std::string &raw : lc::splitc(tr.device, '\n')) {
           std::string l = lc::trim(raw);
-          if (lc::starts(l, "const long idx = ")) line = l;
+          if (lc::starts(l, "const long int idx = ")) line = l;
         }
         out += " @@ " + mode + " " + line;
         if (dumpMode) {
